@@ -40,7 +40,7 @@ def run_mutant(m, tier="quick"):
     try:
         for prop in m["props"]:
             t0 = time.time()
-            p = sh("cd %s && VERIF_SEED=%s ./check %s --tier %s" % (HERE, os.environ.get("VERIF_SEED", "1"), prop, tier))
+            p = sh("cd %s && VERIF_EVIDENCE_DIR=%s/work/evidence-scratch VERIF_SEED=%s ./check %s --tier %s" % (HERE, HERE, os.environ.get("VERIF_SEED", "1"), prop, tier))
             out = p.stdout.decode("utf-8", "replace")
             fired = p.returncode == 1 and "VIOLATION property=%s" % prop in out
             first = [l for l in out.splitlines() if l.startswith("  #")][:1]
